@@ -287,7 +287,7 @@ func (w *CancelWorld) Do(a string) error {
 	return sim.Quiesce()
 }
 
-func (w *CancelWorld) Key() string                            { return "" }
+func (w *CancelWorld) Key() string                             { return "" }
 func (w *CancelWorld) Check(hist []string) []explore.Violation { return nil }
 
 // Final: nothing is parked, the final (never cancelled) request has been issued and the world is
@@ -365,8 +365,8 @@ func (w *CancelWorld) Close() {
 }
 
 type C11Arg struct {
-	Shape                               string
-	Conc                                uint
+	Shape                             string
+	Conc                              uint
 	Reqs, Fails, Bound, Shards, Shard int
 }
 
@@ -424,6 +424,7 @@ func init() {
 				return
 			}
 			d := &explore.ScheduleDFS{
+				Settle:   settle,
 				Scenario: a.Name(),
 				New:      func() (explore.World, error) { return NewCancelWorld(a.Shape, a.Conc, a.Reqs, a.Fails) },
 				Bound:    a.Bound, Horizon: 300, Stats: c.Stats, Journal: c.JournalHist, Expired: c.Expired,
